@@ -95,13 +95,16 @@ def binop(op, a, b, bits, signed):
             # divide the magnitudes as n-bit unsigned numbers (|MIN| = 2**(n-1) fits n bits),
             # quotient negative iff the signs differ, remainder takes the sign of the dividend
             # (on the magnitudes, which are non-negative mathematical integers, // and % are the
-            # ordinary Euclidean quotient and remainder; the divisor is replaced by 1 where the
-            # operation is undefined so that no case split on "divisor == 0" is needed here)
+            # ordinary Euclidean quotient and remainder.  Where b == 0 the operation is undefined and
+            # the value returned is a don't-care; the interval tracker is told |b| >= 1 so that the
+            # division below does not split cases on a zero divisor a second time.)
             defined = b != 0
             ma = abs(a)
-            mb = abs(ite(defined, b, 1))
+            mb = abs(b)
             if type(mb) is SymInt and mb.lo < 1:
-                mb = SymInt(mb.e, 1, mb.hi)        # |b'| >= 1 by construction: tell the interval tracker
+                mb = SymInt(mb.e, 1, max(mb.hi, 1))
+            elif type(mb) is not SymInt and mb == 0:
+                return False, 0
             if op == "/":
                 if signed:
                     defined = sym_and(defined, sym_not(sym_and(a == lo, b == -1)))
